@@ -5,6 +5,7 @@
 
 """
 
+import datetime
 import json
 import json5
 import os
@@ -49,6 +50,9 @@ def build_tree(
         return StringNode(python_obj)
     elif isinstance(python_obj, bytes):
         return StringNode(python_obj.decode('utf-8'))
+    elif isinstance(python_obj, (datetime.date, datetime.time)):
+        # YAML timestamps and dates, plist <date> elements: compared and printed by their ISO 8601 text
+        return StringNode(python_obj.isoformat())
     elif force_leaf_node:
         raise ValueError(f"{python_obj!r} was expected to be an int or string, but was instead a {type(python_obj)}")
     elif isinstance(python_obj, list) or isinstance(python_obj, tuple):
